@@ -2,6 +2,15 @@
 
 T-gen : Gen/RefineConsts.v (PANDORA_MSK_PIXEL_INVALID, ..._STOPPED_INTERPOLATION) regenerated from
         pandora.constants; obligation consts_wf re-proved by vm_compute on every run.
+        Gen/RefineKernels.v (translator/gen_refine_kernels.py, Python `ast`, fail closed): the bodies of
+        Vfit.refinement_method, Quadratic.refinement_method and of the (row, col) loop nest of
+        AbstractRefinement.loop_refinement as direct Gallina terms over the float semantics of Lib/FloatQ.v
+        (option Q, NaN = None, ZeroDivisionError, int() truncation, Python index wrap-around); obligations
+        C06_gen_vfit_eq / C06_gen_quadratic_eq / C06_gen_pixel_eq (Proofs/RefineGenP.v): the regenerated kernels
+        are equivalent to the hand-written model for ALL inputs, re-proved on every run against the text the
+        code has now; the headline theorems are restated on the generated definitions (C06_gen_*).  An edit of
+        the three kernels that changes what is computed breaks one of these (or the translator refuses the
+        shape) whether or not the correspondence sample meets a distinguishing input.
 T-corr: the extracted model (Model/Refine.v: vfit, quadratic, loop_pixel, refine_steps, approx_pixel)
         against the REAL compiled kernels, always through the public entry points
         AbstractRefinement(**cfg).subpixel_refinement(cv, disp) / approximate_subpixel_refinement:
@@ -25,7 +34,7 @@ import xarray as xr
 
 from harness import core
 
-GEN = ["gen_refine_consts"]
+GEN = ["gen_refine_consts", "gen_refine_kernels"]
 EXTRACT_FILES = ["X06"]
 DRIVERS = ["x06"]
 RULE = ("a case is one pixel of one call of subpixel_refinement (or approximate_subpixel_refinement): a cost row whose "
@@ -58,8 +67,16 @@ ASSUMES = [
     "loop_approximate_refinement (not called by any pipeline of this version) is modelled and compared on integer right "
     "disparities only; no theorem is stated about it",
     "each pixel is independent of the others (prange write sets are the subject of C18)",
+    "T-gen covers the two refinement_method bodies, the pixel body of loop_refinement and the shape of its call in "
+    "subpixel_refinement (argument order, d_min/d_max = first/last disparity); float literals are read as the decimal "
+    "they denote (1.0e-15 = 1/10^15), float rounding and the float32 store of the disparity are outside the generated "
+    "terms as they are outside the model; loop_approximate_refinement is not translated",
 ]
-TRUSTED = ["Gen/RefineConsts.v produced by translator/gen_refine_consts.py from the imported pandora.constants"]
+TRUSTED = ["Gen/RefineConsts.v produced by translator/gen_refine_consts.py from the imported pandora.constants",
+           "Gen/RefineKernels.v produced by translator/gen_refine_kernels.py (ast of pandora/refinement/vfit.py, quadratic.py, "
+           "refinement.py) and the semantics it targets: coq/Lib/FloatQ.v (exact rational arithmetic with NaN, comparisons "
+           "with NaN false, x/0 raises, Python min/max, int() truncates) and Model.Refine.read (index wrap-around, no "
+           "bounds check)"]
 
 METHODS = ["vfit", "quadratic"]
 MEASURES = ["min", "max"]
@@ -972,4 +989,13 @@ def run(ctx):
             check_approx(ctx, c, r)
         ctx.stats["approx_rows"] = len(approx)
 
-    ctx.gen_obligations = ["consts_wf (mkK Gen.RefineConsts.msk_invalid Gen.RefineConsts.msk_stopped) = true (vm_compute)"]
+    ctx.gen_obligations = [
+        "consts_wf (mkK Gen.RefineConsts.msk_invalid Gen.RefineConsts.msk_stopped) = true (vm_compute)",
+        "C06_gen_vfit_eq: forall m oc0 c1 oc2 d, Gen.RefineKernels.vfit K oc0 (Some c1) oc2 d m ~ Model.Refine.vfit K m oc0 c1 oc2 "
+        "(Proofs/RefineGenP.v gen_vfit_eq, re-proved against the regenerated text of Vfit.refinement_method)",
+        "C06_gen_quadratic_eq: forall m oc0 c1 oc2 d, Gen.RefineKernels.quadratic K oc0 (Some c1) oc2 d m ~ "
+        "Model.Refine.quadratic K m oc0 c1 oc2 (gen_quadratic_eq, regenerated text of Quadratic.refinement_method)",
+        "C06_gen_pixel_eq: forall me m dmin dmax s cv disp mask, 0 < s -> Gen.RefineKernels.loop_pixel (called with the "
+        "generated method) ~ Model.Refine.loop_pixel (gen_loop_pixel_eq, regenerated text of the pixel body of "
+        "AbstractRefinement.loop_refinement)",
+    ]
